@@ -15,6 +15,33 @@ use std::sync::atomic::{AtomicBool, AtomicI64, AtomicUsize, Ordering::SeqCst};
 /// frozen wall clock: 2027-01-15 08:00:00 UTC
 pub const T0_SECS: i64 = 1_800_000_000;
 
+/// the instant the frozen clock shows ("now" of every run); T0 unless a family chooses another epoch
+static EPOCH_S: AtomicI64 = AtomicI64::new(T0_SECS);
+static EPOCH_NS: AtomicI64 = AtomicI64::new(0);
+
+/// Epochs other than T0 that time-sensitive families are repeated under: "now" is just after midnight at the
+/// end of a year, just after the 32-bit time_t wrap, late in a leap day with a sub-second part, and T0 with
+/// almost a full second of nanoseconds (simulated silences reach back across those boundaries).
+pub const EPOCH_VARIANTS: [(i64, i64, &str); 4] = [
+    (1_830_297_603, 250_000_000, "2028-01-01 00:00:03.25"),
+    (2_147_483_652, 500_000_000, "2038-01-19 03:14:12.5"),
+    (1_835_481_597, 999_000_000, "2028-02-29 23:59:57.999"),
+    (T0_SECS, 999_999_999, "T0 + 0.999999999 s"),
+];
+
+/// choose the epoch (takes effect at once: the frozen clock shows it)
+pub fn set_epoch(secs: i64, ns: i64) {
+    EPOCH_S.store(secs, SeqCst);
+    EPOCH_NS.store(ns, SeqCst);
+    freeze_clock();
+}
+pub fn reset_epoch() {
+    set_epoch(T0_SECS, 0);
+}
+pub fn epoch() -> (i64, i64) {
+    (EPOCH_S.load(SeqCst), EPOCH_NS.load(SeqCst))
+}
+
 static FAKE_ON: AtomicBool = AtomicBool::new(false);
 static FAKE_NS: AtomicI64 = AtomicI64::new(0);
 static FAKE_S: AtomicI64 = AtomicI64::new(T0_SECS);
@@ -34,8 +61,8 @@ static GATE_MX: Mutex<()> = Mutex::new(());
 static GATE_CV: std::sync::Condvar = std::sync::Condvar::new();
 
 pub fn freeze_clock() {
-    FAKE_S.store(T0_SECS, SeqCst);
-    FAKE_NS.store(0, SeqCst);
+    FAKE_S.store(EPOCH_S.load(SeqCst), SeqCst);
+    FAKE_NS.store(EPOCH_NS.load(SeqCst), SeqCst);
     FAKE_ON.store(true, SeqCst);
 }
 
@@ -106,8 +133,8 @@ pub fn wall_elapsed_ms() -> i64 {
 
 fn advance_wall(ns: i64) {
     if WALL_FOLLOWS.load(SeqCst) {
-        let total = WALL_ELAPSED_NS.fetch_add(ns, SeqCst) + ns;
-        FAKE_S.store(T0_SECS + total / 1_000_000_000, SeqCst);
+        let total = WALL_ELAPSED_NS.fetch_add(ns, SeqCst) + ns + EPOCH_NS.load(SeqCst);
+        FAKE_S.store(EPOCH_S.load(SeqCst) + total / 1_000_000_000, SeqCst);
         FAKE_NS.store(total % 1_000_000_000, SeqCst);
     }
 }
